@@ -956,12 +956,12 @@ impl SourceTextModule {
                 });
 
                 // iii. If requiredModule.[[Status]] is linking, then
-                let required_index = if let ModuleStatus::Linking { ancestor_index, .. } =
-                    &*required_module_src.status.borrow()
-                {
-                    Some(*ancestor_index)
-                } else {
-                    None
+                // NOTE: `PreLinked` (environment initialized, cycle not linked yet) is also
+                // "linking" in the specification's terms: such a module is still on the stack.
+                let required_index = match &*required_module_src.status.borrow() {
+                    ModuleStatus::Linking { ancestor_index, .. }
+                    | ModuleStatus::PreLinked { ancestor_index, .. } => Some(*ancestor_index),
+                    _ => None,
                 };
 
                 if let Some(required_index) = required_index {
